@@ -24,6 +24,7 @@ RULE = (
     "model bitwise, with parameters / namespace / width unchanged, carried log_evidence / log_evidence_error (not recomputed) "
     "and beta for SMCSamples. Non-trivial = a history with a non-contiguous selection followed by >=1 further operation."
 )
+RULE += " " + ('Masks and index arrays are also passed as plain Python lists (NumPy, torch).')
 ASSUMPTIONS = [
     "the reference model is a dict of NumPy arrays (same float width) built by the harness, never by aspire",
     "weights of a freshly built weighted set are read once from the real object (exp is not bitwise portable); every later "
